@@ -139,6 +139,9 @@ def step (st : St) (l : Line) : St × Verdict :=
     match kv "recv" l.impl with
     | some got => if got ≠ d then (st, .specFail "C15.relay" s!"agent returned {d}; the client received {got}") else (st, .ok)
     | none => (st, .bad "agentread")
+  | "slowread", _ =>
+    if kv "sent" l.impl == kv "got" l.impl ∧ kv "firstdiff" l.impl == some "-1" then (st, .ok)
+    else (st, .specFail "C15.relay" s!"the agent returned a large amount and then more while the client was not reading; once it read, the client got {joinSp l.impl}: not all of it, in order")
   | "agentclose", _ =>
     if kv "closed" l.impl ≠ some "true" ∨ kv "clients" l.impl ≠ some (toString st.base) then
       (st, .specFail "C15.close" s!"agent closed the socket: {joinSp l.impl}") else (st, .ok)
